@@ -6,7 +6,7 @@ head = subprocess.check_output(["git", "-C", "/repo", "rev-parse", "--short", "H
 matrix = collections.defaultdict(list)
 # later files override earlier rows of the same (seed, check): W2b re-ran the seeds whose first run overlapped an edit of /verif
 rows_by_key = collections.OrderedDict()
-for name in ("RESULTS.tsv", "RESULTS_W2.tsv", "RESULTS_W2b.tsv", "RESULTS_W3.tsv", "RESULTS_W3b.tsv", "RESULTS_W4.tsv", "RESULTS_W4b.tsv", "RESULTS_W5.tsv", "RESULTS_W6.tsv", "RESULTS_W7.tsv", "RESULTS_W7b.tsv", "RESULTS_W8.tsv", "RESULTS_W9.tsv", "RESULTS_W10.tsv", "RESULTS_W11.tsv", "RESULTS_W12.tsv", "RESULTS_W13.tsv"):
+for name in ("RESULTS.tsv", "RESULTS_W2.tsv", "RESULTS_W2b.tsv", "RESULTS_W3.tsv", "RESULTS_W3b.tsv", "RESULTS_W4.tsv", "RESULTS_W4b.tsv", "RESULTS_W5.tsv", "RESULTS_W6.tsv", "RESULTS_W7.tsv", "RESULTS_W7b.tsv", "RESULTS_W8.tsv", "RESULTS_W9.tsv", "RESULTS_W10.tsv", "RESULTS_W11.tsv", "RESULTS_W12.tsv", "RESULTS_W13.tsv", "RESULTS_W14.tsv"):
     tsv = os.path.join(BASE, name)
     if not os.path.exists(tsv):
         continue
